@@ -280,10 +280,14 @@ sds_read_header (SF_PRIVATE *psf, SDS_PRIVATE *psds)
 		psf_log_printf (psf, "bad end : %X\n", byte & 0xFF) ;
 
 	for (blockcount = 0 ; bytesread < psf->filelength ; blockcount++)
-	{
-		bytesread += (int) psf_fread (&marker, 1, 2, psf) ;
+	{	int got ;
 
-		if (marker == 0)
+		marker = 0 ;
+		got = (int) psf_fread (&marker, 1, 2, psf) ;
+		bytesread += got ;
+
+		/* End of data, or of what can be read (the file length of a pipe is unknown). */
+		if (got < 2 || marker == 0)
 			break ;
 
 		psf_fseek (psf, SDS_BLOCK_SIZE - 2, SEEK_CUR) ;
